@@ -25,7 +25,24 @@ def batch_configs(tier, seed, quick_batches, thorough_batches, per_batch, opts, 
     return out
 
 
+def systematic_configs(schedulers=("eager",)):
+    from ..designgen import systematic_specs
+
+    n = len(systematic_specs())
+    return [dict(systematic=True, lo=lo, hi=min(lo + 12, n), scheduler=s) for s in schedulers for lo in range(0, n, 12)]
+
+
 def run_batch(cfg, ctx, props):
+    if cfg.get("systematic"):
+        from ..designgen import systematic_specs
+
+        specs = systematic_specs()
+        for i in range(cfg["lo"], cfg["hi"]):
+            ctx.cfg = dict(cfg, index=i, spec=specs[i])
+            r = check_design(specs[i], ctx, set(props), cfg["scheduler"])
+            ctx.notes["systematic_designs_" + r] = ctx.notes.get("systematic_designs_" + r, 0) + 1
+        ctx.cfg = cfg
+        return
     for i in range(cfg["n"]):
         rng = random.Random(cfg["seed"] * 1009 + i)
         spec = rand_spec(rng, cfg["opts"])
